@@ -24,6 +24,9 @@ type c09Spec struct {
 	Damage    *lib.Damage `json:"damage,omitempty"`
 	Reuse     string      `json:"reuse"`   // how the damaged file is reused by the patch (label)
 	Aligned   bool        `json:"aligned"` // pair contains whole-file copies of block-aligned files
+	// SigFault: the old signature cannot be loaded: "open-error" (Open fails), "truncated" (stream cut in the middle
+	// of the hashes), "garbage" (not a signature stream). Then no read can be checked: error or correct result only.
+	SigFault string `json:"sigFault,omitempty"`
 }
 
 // c09Pair: every way of reusing old data, with reused ranges >= 3 blocks before the end.
@@ -129,6 +132,18 @@ func c09Cases(tier string, seed uint64, flavor string) []lib.Case {
 				dd := d
 				cases = append(cases, lib.Case{Seed: ps, Kind: d.Op, Spec: lib.MustSpec(c09Spec{Seed: ps, Optimized: opt, Damage: &dd, Reuse: c09Reuse[d.Path], Aligned: aligned})})
 			}
+			// the signature itself cannot be loaded
+			for _, sf := range []string{"open-error", "truncated", "garbage"} {
+				cases = append(cases, lib.Case{Seed: ps, Kind: "sig-" + sf, Spec: lib.MustSpec(c09Spec{Seed: ps, Optimized: opt, Reuse: "all", Aligned: aligned, SigFault: sf})})
+				nflip := 0
+				for _, d := range c09Damages(pair) {
+					if d.Op == "flip" && c09Reuse[d.Path] != "unreferenced" && nflip < 3 {
+						dd := d
+						cases = append(cases, lib.Case{Seed: ps, Kind: "sig-" + sf + "+flip", Spec: lib.MustSpec(c09Spec{Seed: ps, Optimized: opt, Damage: &dd, Reuse: c09Reuse[d.Path], Aligned: aligned, SigFault: sf})})
+						nflip++
+					}
+				}
+			}
 		}
 	}
 	return cases
@@ -180,7 +195,14 @@ func c09Run(c lib.Case, env *lib.Env) lib.Result {
 			reuse = "bsdiff"
 		}
 	}
-	desc := fmt.Sprintf("seed=%d optimized=%v damage=%v reuse=%s", s.Seed, s.Optimized, s.Damage, reuse)
+	desc := fmt.Sprintf("seed=%d optimized=%v damage=%v reuse=%s sigFault=%q", s.Seed, s.Optimized, s.Damage, reuse, s.SigFault)
+	switch s.SigFault {
+	case "truncated":
+		oldSig = oldSig[:len(oldSig)*2/3]
+	case "garbage":
+		oldSig = lib.RandomBytes(int64(len(oldSig)), s.Seed)
+	}
+	opens := 0
 	out := filepath.Join(env.Scratch, "out")
 	aerr, panicked, stack := lib.Guard(func() error {
 		p, err := patcher.New(seeksource.FromBytes(patch), lib.Quiet())
@@ -190,6 +212,10 @@ func c09Run(c lib.Case, env *lib.Env) lib.Result {
 		sk, err := pwr.NewSafeKeeper(pwr.SafeKeeperParams{
 			Inner: fspool.New(p.GetTargetContainer(), oldDir),
 			Open: func() (savior.SeekSource, error) {
+				opens++
+				if s.SigFault == "open-error" {
+					return nil, fmt.Errorf("verif: signature cannot be opened")
+				}
 				src := seeksource.FromBytes(oldSig)
 				if _, err := src.Resume(nil); err != nil {
 					return nil, err
@@ -215,12 +241,17 @@ func c09Run(c lib.Case, env *lib.Env) lib.Result {
 		return res
 	}
 	key := fmt.Sprintf("%s/%s", reuse, dclass)
+	if s.SigFault != "" {
+		key += "/sig-" + s.SigFault
+		res.Add("applications_with_unloadable_signature", 1)
+		res.Max("max_signature_open_calls_with_unloadable_signature", int64(opens))
+	}
 	if shape != "" {
 		key += "@" + strings.SplitN(shape, ":", 2)[1]
 	}
 	if aerr != nil {
 		res.Add("applications_failed_with_error", 1)
-		if s.Damage == nil {
+		if s.Damage == nil && s.SigFault == "" {
 			res.Violate("undamaged-rejected", desc, aerr.Error())
 		} else if s.Reuse == "unreferenced" {
 			// the statement allows an error for any damage; just count it
@@ -249,7 +280,7 @@ func init() {
 	lib.Register(&lib.Property{
 		ID:          "C09",
 		Level:       "fault_enumeration",
-		Rule:        "pairs in which the patch reuses old data in every way (block ranges in the middle of a large file >= 3 blocks before its end / bsdiff series in the optimized patch; whole-file copies of files of exactly 64 KiB, 128 KiB, unaligned sizes, < 1 block; an empty file; a file the patch does not reference); after diffing, the old tree gets one damage from the boundary list per case (bit flips at first/last byte of every block and in reused/unused blocks, truncation to {0,1,every block boundary ±1,size-1}, extension by {1,5,up to the boundary ±1,1 block,2 blocks}, fill of the empty file, deletion) or none; applied with patcher + fresh bowl whose target pool is pwr.NewSafeKeeper over the signature of the old build as written by wharf. Oracle: error OR output tree == new build; undamaged: no error AND equal. distinct = distinct (reuse kind, damage class, boundary class, optimized)",
+		Rule:        "pairs in which the patch reuses old data in every way (block ranges in the middle of a large file >= 3 blocks before its end / bsdiff series in the optimized patch; whole-file copies of files of exactly 64 KiB, 128 KiB, unaligned sizes, < 1 block; an empty file; a file the patch does not reference); after diffing, the old tree gets one damage from the boundary list per case (bit flips at first/last byte of every block and in reused/unused blocks, truncation to {0,1,every block boundary ±1,size-1}, extension by {1,5,up to the boundary ±1,1 block,2 blocks}, fill of the empty file, deletion) or none; plus, per pair, a signature that cannot be loaded (Open fails / stream truncated inside the hashes / garbage) with and without a bit flip in a reused block; applied with patcher + fresh bowl whose target pool is pwr.NewSafeKeeper over the signature of the old build as written by wharf. Oracle: error OR output tree == new build; undamaged: no error AND equal. distinct = distinct (reuse kind, damage class, boundary class, optimized)",
 		Assumptions: []string{"the safekeeper is wired the way butler wires it: it is both the patcher's target pool and the fresh bowl's TargetPool"},
 		Cases:       c09Cases,
 		Run:         c09Run,
